@@ -354,3 +354,44 @@ func ruleSIDOwner(c *Ctx, rule string) {
 		c.R.bad(rule, "server identity writers", "-", "-", "no first-party code writes the server identity: shape not recognised")
 	}
 }
+
+// ruleSIDDuidAddr: the link-layer address of the DUID this server announces is
+// the hardware address parsed from the configuration itself (net.ParseMAC's
+// result, whatever its length: 6, 8 or 20 octets), not a copy into a
+// fixed-size buffer or a reslice of it.
+func ruleSIDDuidAddr(c *Ctx, rule string) {
+	n := 0
+	for _, fn := range c.P.SrcFuncs() {
+		if isFixture(fn) || closureRoot(fn).Pkg == nil || !strings.HasSuffix(closureRoot(fn).Pkg.Pkg.Path(), "/plugins/serverid") {
+			continue
+		}
+		eachOwnInstr(fn, func(in ssa.Instruction) {
+			sto, ok := in.(*ssa.Store)
+			if !ok {
+				return
+			}
+			fa, ok := sto.Addr.(*ssa.FieldAddr)
+			if !ok || fieldName(fa) != "LinkLayerAddr" || !strings.HasPrefix(namedOf(fa.X.Type()), pkgDHCP6+".DUID") {
+				return
+			}
+			n++
+			key := fmt.Sprintf("%s DUID link-layer address#%d", shortFn(fn), n)
+			ok2, why := staticOrigins(c, closureRoot(fn), sto.Val, func(v ssa.Value) bool {
+				e, ok := v.(*ssa.Extract)
+				if !ok || e.Index != 0 {
+					return false
+				}
+				call, ok := e.Tuple.(*ssa.Call)
+				return ok && call.Call.StaticCallee() != nil && call.Call.StaticCallee().String() == "net.ParseMAC"
+			})
+			if ok2 {
+				c.R.ok(rule, key, c.P.InstrPos(in), shortFn(fn), "the configured hardware address as parsed")
+			} else {
+				c.R.bad(rule, key, c.P.InstrPos(in), shortFn(fn), "the DUID's link-layer address is not net.ParseMAC's result itself ("+shortName(why)+"): an 8- or 20-octet address would be announced (and matched) in another form than configured")
+			}
+		})
+	}
+	if n == 0 {
+		c.R.bad(rule, "DUID link-layer address", "-", "-", "no DUID literal with a link-layer address found in the server_id plugin")
+	}
+}
